@@ -28,6 +28,7 @@ import (
 	"go/types"
 	"os"
 	"path/filepath"
+	"reflect"
 	"sort"
 	"strings"
 )
@@ -612,6 +613,420 @@ func (p *pkg) appendedIdField(name string) string {
 	return f
 }
 
+
+// ---- error flow on the commit path --------------------------------------------------------------------------------
+//
+// For every call of a handler on the stats path, how does the error it returns reach the error result of the
+// enclosing function: "propagated" (returned directly, or assigned and then checked by an `if v != nil { … return …, v }`,
+// or assigned to the function-level error variable that the function's trailing check returns), "swallowed" (assigned —
+// typically to a variable that shadows the function-level one — and never returned) or "dropped" (result unused).
+
+type flowFact struct{ site, callee, flow string }
+
+func isNilIdent(e ast.Expr) bool {
+	id, ok := e.(*ast.Ident)
+	return ok && id.Name == "nil"
+}
+
+// condIsErrNotNil: `v != nil`
+func condIsErrNotNil(e ast.Expr, v string) bool {
+	b, ok := e.(*ast.BinaryExpr)
+	if !ok || b.Op != token.NEQ {
+		return false
+	}
+	id, ok := b.X.(*ast.Ident)
+	return ok && id.Name == v && isNilIdent(b.Y)
+}
+
+// returnsError: the block contains (outside function literals) a return whose last result is not the literal nil
+func returnsError(n ast.Node) bool {
+	found := false
+	ast.Inspect(n, func(m ast.Node) bool {
+		switch x := m.(type) {
+		case *ast.FuncLit:
+			return false
+		case *ast.ReturnStmt:
+			if len(x.Results) > 0 && !isNilIdent(x.Results[len(x.Results)-1]) {
+				found = true
+			}
+		}
+		return true
+	})
+	return found
+}
+
+func definesVar(st ast.Stmt, v string) bool {
+	switch x := st.(type) {
+	case *ast.AssignStmt:
+		if x.Tok == token.DEFINE {
+			for _, l := range x.Lhs {
+				if id, ok := l.(*ast.Ident); ok && id.Name == v {
+					return true
+				}
+			}
+		}
+	case *ast.DeclStmt:
+		if gd, ok := x.Decl.(*ast.GenDecl); ok && gd.Tok == token.VAR {
+			for _, sp := range gd.Specs {
+				for _, n := range sp.(*ast.ValueSpec).Names {
+					if n.Name == v {
+						return true
+					}
+				}
+			}
+		}
+	}
+	return false
+}
+
+func stmtList(n ast.Node) []ast.Stmt {
+	switch x := n.(type) {
+	case *ast.BlockStmt:
+		return x.List
+	case *ast.CaseClause:
+		return x.Body
+	case *ast.CommClause:
+		return x.Body
+	}
+	return nil
+}
+
+// followingCheck: among the statements after index i, an `if v != nil { … return …, err }` before v is assigned again
+func followingCheck(list []ast.Stmt, i int, v string) bool {
+	for _, st := range list[i+1:] {
+		if is, ok := st.(*ast.IfStmt); ok && is.Init == nil && condIsErrNotNil(is.Cond, v) {
+			return returnsError(is.Body)
+		}
+		if as, ok := st.(*ast.AssignStmt); ok {
+			for _, l := range as.Lhs {
+				if id, ok := l.(*ast.Ident); ok && id.Name == v {
+					return false
+				}
+			}
+		}
+	}
+	return false
+}
+
+func calleeName(c *ast.CallExpr) string {
+	switch f := c.Fun.(type) {
+	case *ast.Ident:
+		return f.Name
+	case *ast.SelectorExpr:
+		return f.Sel.Name
+	}
+	return ""
+}
+
+// errorFlows classifies every call to one of `callees` inside `scope` (a node of fd's body).
+func errorFlows(fd *ast.FuncDecl, scope ast.Node, site string, callees map[string]bool) []flowFact {
+	var out []flowFact
+	var stack []ast.Node
+	// is v declared at the top level of the function body (or a named result)?
+	funcLevel := func(v string) bool {
+		if fd.Type.Results != nil {
+			for _, f := range fd.Type.Results.List {
+				for _, n := range f.Names {
+					if n.Name == v {
+						return true
+					}
+				}
+			}
+		}
+		for _, st := range fd.Body.List {
+			if definesVar(st, v) {
+				return true
+			}
+		}
+		return false
+	}
+	classify := func(c *ast.CallExpr) string {
+		// nearest enclosing statement
+		si := len(stack) - 1
+		for si >= 0 {
+			if _, ok := stack[si].(ast.Stmt); ok {
+				break
+			}
+			si--
+		}
+		if si < 0 {
+			die(c.Pos(), "%s: call of %s outside a statement", site, calleeName(c))
+		}
+		switch st := stack[si].(type) {
+		case *ast.ReturnStmt:
+			for _, r := range st.Results {
+				if r == ast.Expr(c) {
+					return "propagated"
+				}
+			}
+			die(c.Pos(), "%s: %s nested in a return expression", site, calleeName(c))
+		case *ast.ExprStmt:
+			return "dropped"
+		case *ast.AssignStmt:
+			if len(st.Rhs) != 1 || st.Rhs[0] != ast.Expr(c) {
+				die(c.Pos(), "%s: %s nested in an assignment", site, calleeName(c))
+			}
+			id, ok := st.Lhs[len(st.Lhs)-1].(*ast.Ident)
+			if !ok {
+				die(c.Pos(), "%s: error of %s assigned to a non-identifier", site, calleeName(c))
+			}
+			v := id.Name
+			if v == "_" {
+				return "dropped"
+			}
+			define := st.Tok == token.DEFINE
+			parent := stack[si-1]
+			var after ast.Node // the node whose following siblings may check v
+			if is, ok := parent.(*ast.IfStmt); ok && is.Init == ast.Stmt(st) {
+				if condIsErrNotNil(is.Cond, v) && returnsError(is.Body) {
+					return "propagated"
+				}
+				if define {
+					return "swallowed" // v lives only in this if statement
+				}
+				after = is
+				si--
+			} else {
+				after = st
+			}
+			// an explicit check among the following siblings
+			if list := stmtList(stack[si-1]); list != nil {
+				for i, s2 := range list {
+					if ast.Node(s2) == after {
+						if followingCheck(list, i, v) {
+							return "propagated"
+						}
+					}
+				}
+			}
+			if define {
+				return "swallowed"
+			}
+			// assignment to an existing variable: it must be the function-level one (no shadow on the way) and the
+			// function must check and return it after the top-level statement we are in
+			if !funcLevel(v) {
+				return "swallowed"
+			}
+			for k := 1; k < si; k++ { // enclosing nodes below the function body
+				switch e := stack[k].(type) {
+				case *ast.IfStmt:
+					if e.Init != nil && definesVar(e.Init, v) {
+						return "swallowed"
+					}
+				case *ast.BlockStmt, *ast.CaseClause, *ast.CommClause:
+					if k == 0 {
+						continue
+					}
+					for _, s2 := range stmtList(e) {
+						if k+1 < len(stack) && ast.Node(s2) == stack[k+1] {
+							break
+						}
+						if definesVar(s2, v) {
+							return "swallowed"
+						}
+					}
+				}
+			}
+			for i, top := range fd.Body.List {
+				if len(stack) > 1 && ast.Node(top) == stack[1] {
+					if followingCheck(fd.Body.List, i, v) {
+						return "propagated"
+					}
+				}
+			}
+			return "swallowed"
+		}
+		die(c.Pos(), "%s: unrecognised use of %s", site, calleeName(c))
+		return ""
+	}
+	var walk func(n ast.Node)
+	walk = func(n ast.Node) {
+		if n == nil || reflect.ValueOf(n).IsNil() {
+			return
+		}
+		stack = append(stack, n)
+		if c, ok := n.(*ast.CallExpr); ok && callees[calleeName(c)] {
+			out = append(out, flowFact{site, calleeName(c), classify(c)})
+		}
+		ast.Inspect(n, func(m ast.Node) bool {
+			if m == nil || m == n {
+				return m != nil
+			}
+			walk(m)
+			return false
+		})
+		stack = stack[:len(stack)-1]
+	}
+	// the stack must start at the function body so that stack[1] is the top-level statement
+	pathTo(fd.Body, scope, &stack)
+	if len(stack) == 0 {
+		die(scope.Pos(), "%s: scope not inside %s", site, fd.Name.Name)
+	}
+	stack = stack[:len(stack)-1]
+	walk(scope)
+	return out
+}
+
+// pathTo fills stack with the chain of nodes from root down to target (inclusive).
+func pathTo(root, target ast.Node, stack *[]ast.Node) bool {
+	found := false
+	var cur []ast.Node
+	ast.Inspect(root, func(n ast.Node) bool {
+		if found {
+			return false
+		}
+		if n == nil {
+			cur = cur[:len(cur)-1]
+			return true
+		}
+		cur = append(cur, n)
+		if n == target {
+			found = true
+			*stack = append([]ast.Node(nil), cur...)
+			return false
+		}
+		return true
+	})
+	return found
+}
+
+func (p *pkg) commitPathFlows() []flowFact {
+	var out []flowFact
+	need := func(name string, m map[string]*ast.FuncDecl) *ast.FuncDecl {
+		fd := m[name]
+		if fd == nil || fd.Body == nil {
+			die(token.NoPos, "function %s not found in dbs/event", name)
+		}
+		return fd
+	}
+	// processEvent: one entry per case of `switch event.Type`
+	pe := need("processEvent", p.meths)
+	nCases := 0
+	ast.Inspect(pe.Body, func(n ast.Node) bool {
+		sw, ok := n.(*ast.SwitchStmt)
+		if !ok || !strings.HasSuffix(src(sw.Tag), ".Type") {
+			return true
+		}
+		for _, cl := range sw.Body.List {
+			cc := cl.(*ast.CaseClause)
+			for _, e := range cc.List {
+				fs := errorFlows(pe, cc, "processEvent/"+src(e), map[string]bool{"addStat": true, "addError": true})
+				out = append(out, fs...)
+				nCases++
+			}
+		}
+		return false
+	})
+	if nCases == 0 {
+		die(pe.Pos(), "processEvent: no `switch event.Type`")
+	}
+	we := need("WorkEvents", p.meths)
+	out = append(out, errorFlows(we, we.Body, "WorkEvents", map[string]bool{"addEvents": true, "processEvent": true})...)
+	wk := need("Work", p.funcs)
+	out = append(out, errorFlows(wk, wk.Body, "Work", map[string]bool{"WorkEvents": true})...)
+	// the three bridge handlers inside addStat
+	as := need("addStat", p.meths)
+	for tag, cs := range map[string][]string{
+		"TagAddBurnTicket":  {"addBurnTicket"},
+		"TagAuthorizerBurn": {"updateAuthorizersTotalBurn"},
+		"TagAddBridgeMint":  {"updateUserMintNonce", "updateAuthorizersTotalMint"},
+	} {
+		cc := p.caseClause(tag)
+		m := map[string]bool{}
+		for _, c := range cs {
+			m[c] = true
+		}
+		fs := errorFlows(as, cc, "addStat/"+tag, m)
+		if len(fs) != len(cs) {
+			die(cc.Pos(), "addStat case %s: expected calls of %v, found %d", tag, cs, len(fs))
+		}
+		out = append(out, fs...)
+	}
+	// the worker: `err := Work(...)`; `if err != nil { …; commit = false; return }`; `commit = true` only afterwards
+	aw := need("addEventsWorker", p.meths)
+	flow := "swallowed"
+	ast.Inspect(aw.Body, func(n ast.Node) bool {
+		bl, ok := n.(*ast.BlockStmt)
+		if !ok {
+			return true
+		}
+		for i, st := range bl.List {
+			a, ok := st.(*ast.AssignStmt)
+			if !ok || len(a.Rhs) != 1 {
+				continue
+			}
+			c, ok := a.Rhs[0].(*ast.CallExpr)
+			if !ok || calleeName(c) != "Work" {
+				continue
+			}
+			v := src(a.Lhs[len(a.Lhs)-1])
+			if i+1 >= len(bl.List) {
+				continue
+			}
+			is, ok := bl.List[i+1].(*ast.IfStmt)
+			if !ok || !condIsErrNotNil(is.Cond, v) {
+				continue
+			}
+			body := strings.Join(strings.Fields(src(is.Body)), " ")
+			hasReturn := false
+			ast.Inspect(is.Body, func(m ast.Node) bool {
+				if _, ok := m.(*ast.ReturnStmt); ok {
+					hasReturn = true
+				}
+				return true
+			})
+			rest := ""
+			for _, s2 := range bl.List[i+2:] {
+				rest += strings.Join(strings.Fields(src(s2)), " ") + ";"
+			}
+			before := ""
+			for _, s2 := range bl.List[:i] {
+				before += strings.Join(strings.Fields(src(s2)), " ") + ";"
+			}
+			if hasReturn && !strings.Contains(body, "commit = true") && strings.Contains(rest, "commit = true") &&
+				!strings.Contains(before, "commit = true") && strings.Contains(before, ".done <- commit") {
+				flow = "propagated"
+			}
+		}
+		return true
+	})
+	out = append(out, flowFact{"addEventsWorker", "Work", flow})
+	// ProcessEvents: in the clause `case commit := <-event.done:` the first statement that mentions commit is
+	// `if !commit { … return …, err }`, and Commit() is called only after it
+	pr := need("ProcessEvents", p.meths)
+	flow = "swallowed"
+	ast.Inspect(pr.Body, func(n ast.Node) bool {
+		cc, ok := n.(*ast.CommClause)
+		if !ok || cc.Comm == nil || !strings.Contains(src(cc.Comm), ".done") {
+			return true
+		}
+		a, ok := cc.Comm.(*ast.AssignStmt)
+		if !ok || len(a.Lhs) != 1 {
+			return true
+		}
+		v := src(a.Lhs[0])
+		guarded := false
+		for _, st := range cc.Body {
+			text := strings.Join(strings.Fields(src(st)), " ")
+			if is, ok := st.(*ast.IfStmt); ok && strings.Join(strings.Fields(src(is.Cond)), "") == "!"+v {
+				if returnsError(is.Body) && !strings.Contains(strings.Join(strings.Fields(src(is.Body)), " "), "Commit(") {
+					guarded = true
+				}
+				continue
+			}
+			if strings.Contains(text, "Commit(") && !guarded {
+				return true
+			}
+		}
+		if guarded {
+			flow = "propagated"
+		}
+		return true
+	})
+	out = append(out, flowFact{"ProcessEvents", "commit", flow})
+	return out
+}
+
 // ---- emit sites -------------------------------------------------------------------------------------------------
 
 type emit struct {
@@ -709,6 +1124,8 @@ func main() {
 	if bf := p.appendedIdField("updateAuthorizersTotalBurn"); bf != "Burner" {
 		die(token.NoPos, "updateAuthorizersTotalBurn keys its rows by %s, the model assumes Burner", bf)
 	}
+	flows := p.commitPathFlows()
+	sort.SliceStable(flows, func(i, j int) bool { return flows[i].site+"/"+flows[i].callee < flows[j].site+"/"+flows[j].callee })
 	bridge := map[string]bool{"TagAddBurnTicket": true, "TagAuthorizerBurn": true, "TagAddBridgeMint": true}
 	emits := emitSites(filepath.Join(gosrc, "smartcontract/zcnsc"), bridge)
 	mergerType := map[string]string{}
@@ -797,6 +1214,15 @@ func main() {
 		}
 		fmt.Fprintf(&b, "  (%s, %q, %v, %q, %q)%s\n", e.tag, e.typ, e.ptr, e.index, e.idxField, sep)
 	}
+	b.WriteString("]\n\n/-- the commit path: (site, callee, how the callee's error reaches the caller's error result) -/\n")
+	b.WriteString("def errorFlow : List (String × String × ErrFlow) := [\n")
+	for i, f := range flows {
+		sep := ","
+		if i == len(flows)-1 {
+			sep = ""
+		}
+		fmt.Fprintf(&b, "  (%q, %q, .%s)%s\n", f.site, f.callee, f.flow, sep)
+	}
 	b.WriteString("]\n\nend ZChain.Events.Gen\n")
 	if err := os.MkdirAll(filepath.Dir(out), 0o755); err != nil {
 		die(token.NoPos, "%v", err)
@@ -819,4 +1245,11 @@ func main() {
 	fmt.Printf("routing: chain=%s stats=%s unique=%s\n", rt.typeChain, rt.typeStats, rt.tagUnique)
 	fmt.Printf("burn-ticket handler=%s mint set=%s id=%s\n", shape, mset, mid)
 	fmt.Printf("emit sites=%d\n", len(emits))
+	nprop := 0
+	for _, f := range flows {
+		if f.flow == "propagated" {
+			nprop++
+		}
+	}
+	fmt.Printf("commit-path error flows=%d propagated=%d\n", len(flows), nprop)
 }
